@@ -325,7 +325,19 @@ func (e *c14env) delClient(dc *FuncSrc, fClients *types.Var) {
 	}
 	c.Check(okGuard, "R14.2", "DelClient: removes only the registered client", del.Pos(),
 		"the removal is dominated by g.clients[c.Id()] == c", "a stale or foreign client object can delete the registered member with the same id")
-	okSnap := snapVar != nil && ff.ReachableFrom(del, snapAssign) && ff.DominatedByNode(snapAssign, del) && !ff.assignedVars()[snapVar]
+	// the snapshot variable is written once
+	nSnapDefs := 0
+	ast.Inspect(dc.Body(), func(n ast.Node) bool {
+		if as, ok := n.(*ast.AssignStmt); ok {
+			for _, l := range as.Lhs {
+				if id, isId := unparen(l).(*ast.Ident); isId && snapVar != nil && info.ObjectOf(id) == snapVar {
+					nSnapDefs++
+				}
+			}
+		}
+		return true
+	})
+	okSnap := snapVar != nil && ff.ReachableFrom(del, snapAssign) && ff.DominatedByNode(snapAssign, del) && nSnapDefs == 1
 	c.Check(okSnap, "R14.2", "DelClient: snapshot of the remaining members", posOf(snapAssign),
 		"clients := g.getClientsUnlocked(nil) taken after the removal", "the members told about the departure are not the post-removal membership")
 	ast.Inspect(dc.Body(), func(n ast.Node) bool {
@@ -349,7 +361,7 @@ func (e *c14env) delClient(dc *FuncSrc, fClients *types.Var) {
 		id, isId := unparen(recvExpr(joined)).(*ast.Ident)
 		okJoined = isC && s == "leave" && isId && info.ObjectOf(id) == leaver
 		// on every path after the removal
-		if _, found := ff.PathSearch(del, 0, func(n ast.Node, st *State, flag int) (int, bool) {
+		if _, found := ff.PathSearchPS(del, 0, func(n ast.Node, st *State, flag int) (int, bool) {
 			hit := false
 			ast.Inspect(n, func(x ast.Node) bool {
 				if x == ast.Node(joined) {
@@ -385,7 +397,7 @@ func (e *c14env) delClient(dc *FuncSrc, fClients *types.Var) {
 		}
 		return true
 	})
-	_, skipLoop := ff.PathSearch(del, 0, func(n ast.Node, st *State, flag int) (int, bool) {
+	_, skipLoop := ff.PathSearchPS(del, 0, func(n ast.Node, st *State, flag int) (int, bool) {
 		return flag, n == ast.Node(loop.X) || containsNode(n, loop.X)
 	}, nil, func(int) bool { return true })
 	if push == nil || member == nil {
